@@ -573,6 +573,43 @@ func Main(p *Prop) {
 	close(ch)
 	wg.Wait()
 
+	// ---- a second look at inconclusive cases.  A wall-clock wait that expired
+	// (watchdog, a yield point not reached in time, a peer not answering in
+	// time) decides nothing, and on a machine busy with sixteen children it
+	// can be the machine: run each such case once more, alone, with longer
+	// waits.  What it reports the second time stands (violation, held or
+	// inconclusive again).
+	retried := 0
+	if len(r.agg.Incon) > 0 && *only < 0 {
+		re := regexp.MustCompile(`case (\d+)`)
+		var keep []string
+		var again []int
+		seen := map[int]bool{}
+		for _, s := range r.agg.Incon {
+			m := re.FindStringSubmatch(s)
+			if m == nil || len(again) >= 12 {
+				keep = append(keep, s)
+				continue
+			}
+			i, _ := strconv.Atoi(m[1])
+			if !seen[i] {
+				seen[i] = true
+				again = append(again, i)
+			}
+		}
+		if len(again) > 0 {
+			os.Setenv("VERIF_TIMEOUT_SCALE", strconv.FormatFloat(Scale(*tier)*3, 'f', -1, 64))
+			r.agg.Incon = keep
+			for _, i := range again {
+				ev := r.agg.Evaluations
+				r.runRange(i, i+1, "", 1)
+				r.agg.Evaluations = ev // the case was counted the first time
+				retried++
+			}
+			fmt.Printf("NOTE %d inconclusive case(s) were run a second time on their own: %v\n", retried, again)
+		}
+	}
+
 	// ---- race reports
 	var raceExamples map[string]string
 	harnessRaces := 0
@@ -652,15 +689,16 @@ func Main(p *Prop) {
 
 	// ---- evidence
 	cov := map[string]any{
-		"evaluations":         agg.Evaluations,
-		"distinct_nontrivial": len(agg.Sigs),
-		"rule":                p.Rule,
-		"samples":             agg.Samples,
-		"observed":            agg.Counts,
-		"verdict":             verdict,
-		"witness_runs":        witnessEvals,
-		"known_findings":      knownObserved,
-		"children":            r.nchild,
+		"inconclusive_cases_run_a_second_time": retried,
+		"evaluations":                          agg.Evaluations,
+		"distinct_nontrivial":                  len(agg.Sigs),
+		"rule":                                 p.Rule,
+		"samples":                              agg.Samples,
+		"observed":                             agg.Counts,
+		"verdict":                              verdict,
+		"witness_runs":                         witnessEvals,
+		"known_findings":                       knownObserved,
+		"children":                             r.nchild,
 	}
 	if len(agg.Samples) == 0 {
 		cov["samples"] = []any{fmt.Sprintf("cases are generated from seed %d; none recorded a sample", seed)}
